@@ -12,7 +12,11 @@
 (* last answer per text and import_ignored_lints forgets to drop it.                   *)
 EXTENDS DictOps
 
-CONSTANTS MaxOps, ResyncOnChange, LintMemo
+(* A text can be linted as plain text or as Markdown; the context of a lint is taken from  *)
+(* the tokens of the language it was produced in (tagged here with that language).        *)
+(* DocCacheByText = TRUE is a deviation a seeded change introduced: ignore_lint re-uses    *)
+(* the document parsed by the last lint() call of the same text, whatever its language.   *)
+CONSTANTS MaxOps, ResyncOnChange, LintMemo, DocCacheByText
 
 Foo == <<"a", "b">>           \* a word the curated dictionary lacks
 FooCap == <<"A", "b">>        \* its capitalised spelling
@@ -20,19 +24,23 @@ Bar == <<"b", "b">>           \* another unknown word
 Vocab == {Foo, FooCap, Bar}
 Texts == {<<Foo>>, <<FooCap>>, <<Bar>>, <<Foo, Bar>>, <<FooCap, Foo>>}
 
-VARIABLES user, synced, ignored, saved, memo, shown, nops, hist
-jsvars == <<user, synced, ignored, saved, memo, shown, nops, hist>>
+VARIABLES user, synced, ignored, saved, memo, shown, nops, hist,
+          promised,   \* <<text, position>> pairs ignored as plain-text lints and not cleared since
+          lastDoc     \* text and language of the most recent lint() call
+jsvars == <<user, synced, ignored, saved, memo, shown, nops, hist, promised, lastDoc>>
 \* the state without the history of calls (a VIEW for configurations that do not emit cases)
-NoHist == <<user, synced, ignored, saved, memo, shown, nops, IF hist # <<>> THEN hist[Len(hist)].op ELSE "">>
+NoHist == <<user, synced, ignored, saved, memo, shown, nops, IF hist # <<>> THEN hist[Len(hist)].op ELSE "", promised, lastDoc>>
 NoMemo == [t |-> <<>>, r |-> {}]
 
 Accepts(ws, w) == MutContains(ws, w) /\ (MutExact(ws, w) \/ MutExact(ws, Lower(w)))
 \* lint(text): positions of words the synchronised dictionary does not accept, minus ignored
 Flagged(ws, t) == {i \in DOMAIN t : ~Accepts(ws, t[i])}
-Ctx(t, i) == <<t[i], IF i > 1 THEN t[i - 1] ELSE <<>>, IF i < Len(t) THEN t[i + 1] ELSE <<>> >>
+CtxL(t, i, lang) == <<t[i], IF i > 1 THEN t[i - 1] ELSE <<>>, IF i < Len(t) THEN t[i + 1] ELSE <<>>, lang>>
+Ctx(t, i) == CtxL(t, i, "plain")
 LintOf(ws, ig, t) == {i \in Flagged(ws, t) : Ctx(t, i) \notin ig}
 
-JInit == user = <<>> /\ synced = <<>> /\ ignored = {} /\ saved = {} /\ memo = NoMemo /\ shown = NoMemo /\ nops = 0 /\ hist = <<>>
+JInit == user = <<>> /\ synced = <<>> /\ ignored = {} /\ saved = [c |-> {}, p |-> {}] /\ memo = NoMemo /\ shown = NoMemo /\ nops = 0 /\ hist = <<>>
+         /\ promised = {} /\ lastDoc = [t |-> <<>>, lang |-> "plain"]
 Log(op) == hist' = Append(hist, op) /\ nops' = nops + 1
 \* import_words
 ImportWords(ws) ==
@@ -42,27 +50,33 @@ ImportWords(ws) ==
          changed == MapOf(u2) # MapOf(user)
      IN /\ user' = u2
         /\ synced' = IF (IF ResyncOnChange THEN changed ELSE grew) THEN u2 ELSE synced
-  /\ memo' = NoMemo /\ UNCHANGED <<ignored, saved, shown>> /\ Log([op |-> "import", words |-> ws])
+  /\ memo' = NoMemo /\ UNCHANGED <<ignored, saved, shown, promised, lastDoc>> /\ Log([op |-> "import", words |-> ws])
 IgnoreLint(t, i) ==
   /\ nops < MaxOps /\ i \in DOMAIN t /\ i \in LintOf(synced, ignored, t)
-  /\ ignored' = ignored \cup {Ctx(t, i)}
-  /\ memo' = NoMemo /\ UNCHANGED <<user, synced, saved, shown>> /\ Log([op |-> "ignore", text |-> t, at |-> i])
+  /\ ignored' = ignored \cup {CtxL(t, i, IF DocCacheByText /\ lastDoc.t = t THEN lastDoc.lang ELSE "plain")}
+  /\ promised' = promised \cup {<<t, i>>}
+  /\ memo' = NoMemo /\ UNCHANGED <<user, synced, saved, shown, lastDoc>> /\ Log([op |-> "ignore", text |-> t, at |-> i])
 \* export ignored -> clear -> import ignored
-RoundTripIgnored == nops < MaxOps /\ memo' = NoMemo /\ UNCHANGED <<user, synced, ignored, saved, shown>> /\ Log([op |-> "ignored_roundtrip"])
+RoundTripIgnored == nops < MaxOps /\ memo' = NoMemo /\ UNCHANGED <<user, synced, ignored, saved, shown, promised, lastDoc>> /\ Log([op |-> "ignored_roundtrip"])
 \* the three calls on their own, and lint() as a call whose answer is observed
-ExportIgnored == nops < MaxOps /\ saved' = ignored /\ UNCHANGED <<user, synced, ignored, memo, shown>> /\ Log([op |-> "export_ignored"])
-ClearIgnored == nops < MaxOps /\ ignored' = {} /\ memo' = NoMemo /\ UNCHANGED <<user, synced, saved, shown>> /\ Log([op |-> "clear_ignored"])
-ImportIgnored == nops < MaxOps /\ ignored' = ignored \cup saved /\ memo' = (IF LintMemo THEN memo ELSE NoMemo)
-                 /\ UNCHANGED <<user, synced, saved, shown>> /\ Log([op |-> "import_ignored"])
+\* the exported list carries the contexts and, for the invariant's sake, which lints they were promised to hide
+ExportIgnored == nops < MaxOps /\ saved' = [c |-> ignored, p |-> promised] /\ UNCHANGED <<user, synced, ignored, memo, shown, promised, lastDoc>> /\ Log([op |-> "export_ignored"])
+ClearIgnored == nops < MaxOps /\ ignored' = {} /\ promised' = {} /\ memo' = NoMemo /\ UNCHANGED <<user, synced, saved, shown, lastDoc>> /\ Log([op |-> "clear_ignored"])
+ImportIgnored == nops < MaxOps /\ ignored' = ignored \cup saved.c /\ promised' = promised \cup saved.p /\ memo' = (IF LintMemo THEN memo ELSE NoMemo)
+                 /\ UNCHANGED <<user, synced, saved, shown, lastDoc>> /\ Log([op |-> "import_ignored"])
 Lint(t) == /\ nops < MaxOps
            /\ LET r == IF LintMemo /\ memo.t = t THEN memo.r ELSE LintOf(synced, ignored, t) IN
               /\ shown' = [t |-> t, r |-> r] /\ memo' = [t |-> t, r |-> r]
-           /\ UNCHANGED <<user, synced, ignored, saved>> /\ Log([op |-> "lint", text |-> t])
+           /\ lastDoc' = [t |-> t, lang |-> "plain"]
+           /\ UNCHANGED <<user, synced, ignored, saved, promised>> /\ Log([op |-> "lint", text |-> t])
+\* the same text looked at as Markdown (its answer is not modelled: only that it was the last document parsed)
+LintMd(t) == /\ nops < MaxOps /\ lastDoc' = [t |-> t, lang |-> "md"] /\ memo' = NoMemo
+             /\ UNCHANGED <<user, synced, ignored, saved, shown, promised>> /\ Log([op |-> "lint_md", text |-> t])
 JNext == \/ \E w \in Vocab : ImportWords(<<w>>)
          \/ \E w1, w2 \in Vocab : ImportWords(<<w1, w2>>)
          \/ \E t \in Texts, i \in 1..2 : IgnoreLint(t, i)
          \/ RoundTripIgnored \/ ExportIgnored \/ ClearIgnored \/ ImportIgnored
-         \/ \E t \in Texts : Lint(t)
+         \/ \E t \in Texts : Lint(t) \/ LintMd(t)
 
 \* export_words -> new Linter -> import_words : the clone's state
 ExportedWords == LET S == MutWords(user) IN CHOOSE s \in [1..Cardinality(S) -> S] : \A i, j \in DOMAIN s : i # j => s[i] # s[j]
@@ -78,5 +92,8 @@ ImportedWordsAccepted == \A i \in DOMAIN user : \A t \in Texts : \A k \in DOMAIN
 IgnoredStayHidden == \A t \in Texts : \A i \in DOMAIN t : Ctx(t, i) \in ignored => i \notin LintOf(synced, ignored, t)
 \* what lint() last answered is what the current state says about that text, as long as the state
 \* has not changed since (shown is compared right after the call: the answer is never stale)
+\* a lint ignored as a plain-text lint is hidden whenever the text is linted as plain text, whatever was
+\* looked at in between (as long as the dictionary still flags the word and the list was not cleared)
+PromisedHidden == \A pr \in promised : pr[2] \notin LintOf(synced, ignored, pr[1])
 AnswerIsCurrent == (hist # <<>> /\ hist[Len(hist)].op = "lint") => shown.r = LintOf(synced, ignored, shown.t)
 =============================================================================
